@@ -181,6 +181,14 @@ def run(ctx):
                 lim = {"panoc": 2, "fista": 2, "zerofpr": 0, "pantr": 0}[solver]
                 if after_final > lim:
                     ctx.violation("C19:not-prompt:after-final-check:" + tag, "%d evaluations after the final stop check (proved: <= %d)" % (after_final, lim), info)
+        # stop() issued INSIDE direction call #j of the scripted provider: no further direction call (StopPromptGap.loop_stop_inside_direction_call
+        # / StopPromptGapZ: the next poll sees the request and nothing calls the direction after it); only direction.initialize (call 0,
+        # k = 0) is followed by the direction.apply of the same iteration
+        if kind == "dir" and mode == "inner" and solver in ("panoc", "zerofpr"):
+            allowed = j + 1 + (1 if j == 0 else 0)
+            if o.get("dircalls", 0) > allowed:
+                ctx.violation("C19:direction-call-after-stop:" + tag, "%d direction calls in all although stop() was issued inside direction call #%d (proved: none after it%s)"
+                              % (o["dircalls"], j, "; initialize is followed by apply" if j == 0 else ""), info)
         if proved is not None:
             bound, how = proved
             ctx.count("promptness/proved-bound")
